@@ -1,11 +1,9 @@
+import glob, json, os
+HERE = os.path.dirname(os.path.abspath(__file__))
 NOTES = ("Every check regenerates coq/Gen from /repo, rebuilds Props/<id>.vo with a full .vo build, runs the "
          "model/implementation correspondence inside Coq and the property oracle on the implementation. "
-         "Trusted base and per-property partial clauses: DESIGN.md sections 3, 4, 7.")
+         "Trusted base and per-property partial clauses: DESIGN.md sections 3, 4, 7 and design.d/<id>.md.")
 NOT_APPLICABLE = {}
-CHECKS = {
-    "C02": {
-        "text": "Theorems over the reals about the Hamilton-product / vector-rotation / matrix kernels regenerated from the source on every run (associativity, action composition, matrix homomorphism, inverse, unit closure, isometry, improper parity algebra) and list-level theorems for the outer-product index layout for all shapes; tie = translator + Coq-evaluated correspondence on both backends; from_align_vectors is oracle-only (SciPy solver is external).",
-        "note": "Coq kernel + stdlib real-number axioms (ClassicalDedekindReals.sig_forall_dec, sig_not_dec, functional_extensionality_dep, Classical_Prop.classic); translator; FInst float evaluator; numpy-quaternion and SciPy align_vectors as external libraries; float rounding not modelled.",
-        "technique": "Coq proof (ring/nsatz over R on translated kernels, list induction) + differential correspondence",
-    },
-}
+CHECKS = {}
+for f in sorted(glob.glob(os.path.join(HERE, "manifest.d", "C*.json"))):
+    CHECKS[os.path.basename(f)[:-5]] = json.load(open(f))
